@@ -338,7 +338,7 @@ fn read(rng: &mut Rng, ctx: &mut Ctx) {
                 let (zero, _) = read_line(&b, skip, hsh);
                 let mut c = Case::new(read_cmd(skip, hsh, &b), at.clone()); c.tags = vec![format!("offset-read skip{} hash{}", skip as u8, hsh as u8)];
                 if at != zero { let msg = format!("read from stream position {} (skip={}, hash={}) differs from the read at position 0: {} vs {}", pre, skip, hsh, &at[..at.len().min(120)], &zero[..zero.len().min(120)]);
-                    if skip { c.fail("C10", msg.clone()); } if hsh { c.fail("C11", msg.clone()); } if !skip { c.fail("C01", msg.clone()); c.fail("C03", msg.clone()); c.fail("C04", msg.clone()); } c.fail("C05", msg.clone()); c.fail("C12", msg); }
+                    if skip { c.fail("C10", msg.clone()); } if hsh { c.fail("C11", msg.clone()); } if !skip { c.fail("C01", msg.clone()); c.fail("C03", msg.clone()); c.fail("C04", msg.clone()); c.fail("C17", format!("a canonical (written) file does not read back the same from stream position {}: {}", pre, &msg[..msg.len().min(160)])); c.fail("C16", msg.clone()); } c.fail("C05", msg.clone()); c.fail("C12", msg); }
                 ctx.push(c);
             }
         }
@@ -562,6 +562,19 @@ fn arrow(rng: &mut Rng, ctx: &mut Ctx) {
                 let exp = spec::arrow_leaves(r.v, &slots_of(&r.start_block));
                 if lv != exp { let i = lv.iter().zip(&exp).position(|(a, b)| a != b).unwrap_or(lv.len().min(exp.len())); c.fail("C14", format!("Arrow schema differs from the per-version field table at leaf {}: {:?} vs {:?}", i, lv.get(i), exp.get(i))); } if !same { c.fail("C14", "from_struct_array(into_struct_array(frames)) does not serialise to the identical .slp"); } if !rows { c.fail("C14", "struct array length != number of frame rows"); } } }
         c.tags = tags; ctx.push(c);
+        // an item row that no frame's offsets cover (the reader accepts an Item event that carries the last frame's id after that frame's Frame End; a
+        // user-built table may have one too): export and import keep the item column as it is, the written file is the same with and without the trip
+        if gte(r.v, 3, 0) && k % 4 == 1 && !zero_ports { let pad = Pad::default(); let mut body = body_events(&r, &pad);
+            if let (Some(li), Some(it)) = (body.iter().rposition(|e| e[0] == 0x3C), body.iter().rev().find(|e| e[0] == 0x3B).cloned().or_else(|| { let mut e = vec![0x3Bu8]; e.extend(r.frames.last().map_or(-123i32, |f| f.id).to_be_bytes()); e.extend(rng.bytes(crate::gen::item_size(r.v) - 4)); Some(e) })) {
+                let mut it = it; let id = r.frames.last().map_or(-123i32, |f| f.id); it[1..5].copy_from_slice(&id.to_be_bytes()); body.insert(li + 1, it);
+                let b2 = assemble(&r, &table(&r, &pad), &body, &[], &pad);
+                let mut c = Case::new(format!("skipcase trailing-item {}", k), String::new()); c.tags = vec!["trailing-item".into()];
+                let res = std::panic::catch_unwind(|| -> Option<(Vec<u8>, Vec<u8>)> { let g = slippi::read(Cursor::new(&b2), None).ok()?; let ports = port_occupancy(&g.start); let ver = g.start.slippi.version; let mut w1 = vec![]; slippi::write(&mut w1, &g).ok()?;
+                    let Game { start, end, frames, metadata, gecko_codes, quirks, .. } = g; let f2 = im::Frame::from_struct_array(frames.into_struct_array(ver, &ports), ver);
+                    let mut w2 = vec![]; slippi::write(&mut w2, &Game { start, end, frames: f2, metadata, gecko_codes, hash: None, quirks }).ok()?; Some((w1, w2)) });
+                match res { Err(_) => { c.impl_out = "panic".into(); c.fail("C14", "panic exporting / importing a frame table with an item row behind the last offset"); }
+                    Ok(None) => { c.impl_out = "not-accepted".into(); } Ok(Some((w1, w2))) => { c.impl_out = format!("ok {}", w1 == w2); if w1 != w2 { c.fail("C14", format!("frame table with an item row behind the last offset: the file written after export and import differs from the one written directly ({} vs {} bytes)", w2.len(), w1.len())); } } }
+                ctx.push(c); } }
     }
 }
 
